@@ -64,7 +64,7 @@ def gen_chain_scene(
             elif style < 0.4:
                 motion["alpha"] = 0.0  # translating only
             if rng.random() < 0.35:
-                motion["phase"] = float(np.pi / 2)  # a drive that starts from rest: no explicit time dependence of the velocity level at t0
+                motion["from_rest"] = True  # a drive that starts exactly from rest: no explicit time dependence of the velocity level at t0
         scene["frames"].append({"r": rng.uniform(-0.5, 0.5, 3).tolist(), "p": rot.rand_quat(rng).tolist(), "motion": motion})
     elif allow_frames and rng.random() < 0.2:
         scene["frames"].append({"r": rng.uniform(-0.5, 0.5, 3).tolist(), "p": rot.rand_quat(rng).tolist(), "motion": None})
